@@ -235,15 +235,20 @@ Definition two64 : N := 18446744073709551616.
 Definition max_uint32 : N := 4294967295.
 Definition max_int64 : N := 9223372036854775807.
 
-(* lexUint: decimal digits with the code's uint64 wrap-around test; a NUL byte ends the number
-   and is consumed; any other byte ends it and is left unread. *)
+Definition max_uint64 : N := 18446744073709551615.
+
+(* lexUint: decimal digits with the code's overflow test, performed BEFORE multiplying
+   (value > (MaxUint64 - d) / 10, repaired defect D11: the former test "n < value" after a
+   wrapping multiplication missed some wrap-arounds; the former behaviour is kept in
+   Model/LexerLegacyUint.v); a NUL byte ends the number and is consumed; any other byte ends it
+   and is left unread. *)
 Fixpoint lex_uint (v : N) (consumed : bool) (l : str) : result (N * str) :=
   match l with
   | [] => if consumed then Ok (v, []) else Rej EInvalidFormat
   | b :: r =>
       if is_digit b then
-        let n := (v * 10 + (b - c_0)) mod two64 in
-        if n <? v then Rej EOverflow else lex_uint n true r
+        let d := b - c_0 in
+        if (max_uint64 - d) / 10 <? v then Rej EOverflow else lex_uint (v * 10 + d) true r
       else if b =? c_nul then Ok (v, r)
       else if consumed then Ok (v, l) else Rej EInvalidFormat
   end.
@@ -385,8 +390,8 @@ Fixpoint lex_eattrs (st : estate) (e : event) (tags : list str) (l : str)
           else Rej EInvalidFormat
       | EDate v consumed =>
           if is_digit b then
-            let n := (v * 10 + (b - c_0)) mod two64 in
-            if n <? v then Rej EOverflow else lex_eattrs (EDate n true) e tags r
+            let d := b - c_0 in
+            if (max_uint64 - d) / 10 <? v then Rej EOverflow else lex_eattrs (EDate (v * 10 + d) true) e tags r
           else if b =? c_nul then
             match set_date v e with
             | Ok e' => lex_eattrs EAttrs e' tags r | Rej x => Rej x | Pan => Pan end
